@@ -195,8 +195,8 @@ PROPS["C20"] = {
     "technique": "deterministic simulation of restart histories with a reference model; plain enumeration for the pure sub-claims",
 }
 
-# properties whose worlds run a quarter of their workers against a copy of hc instrumented with
-# yield points (finer interleavings, see sim/instrument)
-for _p in ["C01", "C02", "C03", "C04", "C08", "C09", "C10", "C11", "C12", "C13"]:
+# properties whose worlds run against a copy of hc instrumented with lock probes and yield points
+# (see sim/instrument); the yield points are active in a quarter of the workers
+for _p in ["C01", "C02", "C03", "C04", "C05", "C08", "C09", "C10", "C11", "C12", "C13"]:
     PROPS[_p]["fine"] = True
-    PROPS[_p]["assumptions"] = PROPS[_p]["assumptions"] + ["a quarter of the workers run against a copy of hc with go/ast-inserted yield points before the statements of hc's functions (not inside loops, not in functions that take a lock themselves), a per-run subset of which are park points"]
+    PROPS[_p]["assumptions"] = PROPS[_p]["assumptions"] + ["the workers run a copy of /repo's working tree into which go/ast inserted a lock probe before every Lock / RLock statement and a yield point before the statements of hc's functions (not inside loops, not in functions that take a lock themselves); in a quarter of the workers a per-run subset of the yield points are park points"]
